@@ -92,6 +92,14 @@ func (r *responseStorer) StoreResponse(
 	}
 
 	if refIndex < 0 || refIndex >= len(refs) {
+		// The same variant may already be recorded although it did not match the
+		// request (e.g. "Vary: *" never matches): replace that record instead of
+		// letting the index grow with every request.
+		refIndex = slices.IndexFunc(refs, func(ref *ResponseRef) bool {
+			return ref != nil && ref.ResponseID == responseID
+		})
+	}
+	if refIndex < 0 || refIndex >= len(refs) {
 		refs = append(refs, refEntry) // New response reference
 	} else {
 		refs[refIndex] = refEntry // Update existing response reference
